@@ -110,6 +110,81 @@ def walk_complete(stream):
     return out
 
 
+def real_readiness(out):
+    """The scheduled runs replace the module's readiness test by the event list.  Here it is left as it is: real loop-back connections,
+    the port's own way of asking the kernel whether there is something to read, the peer ending with an orderly close or a reset, the
+    bytes before the end in one or several segments.  Iteration must end (within a bounded number of sleeps), the port must be closed
+    then, and after an orderly close every complete message that was sent must have been handed out."""
+    import time
+    import mido.ports as ports
+    import mido.sockets as sockets
+    msgs = [[0x90, 60, 64], [0xf8], [0xb1, 7, 100], [0xf0, 1, 2, 3, 0xf7]]
+    n = 0
+    for ending in ('fin', 'rst'):
+        for nmsg in (0, 1, 3, 4):
+            for tail in ([], [0x90, 61], [0xf0, 9]):
+                for split in (False, True):
+                    n += 1
+                    a, b = tcp_pair()
+                    data = [x for m in msgs[:nmsg] for x in m] + tail
+                    st = {'n': 0}
+
+                    def nap():
+                        st['n'] += 1
+                        if st['n'] > 400:
+                            raise Hang()
+                        time.sleep(0.002)
+                    saved = ports.sleep
+                    ports.sleep = nap
+                    got, problem = [], None
+                    try:
+                        port = sockets.SocketPort('127.0.0.1', 1, conn=b)
+                        if split and len(data) > 1:
+                            a.sendall(bytes(data[:len(data) // 2])); time.sleep(0.01); a.sendall(bytes(data[len(data) // 2:]))
+                        elif data:
+                            a.sendall(bytes(data))
+                        if ending == 'rst':
+                            if data:
+                                # let the port take the bytes in first: what a reset does to unread data is the kernel's business
+                                deadline = time.time() + 2.0
+                                while time.time() < deadline and len(got) < nmsg:
+                                    m = port.poll()
+                                    if m is None:
+                                        time.sleep(0.002)
+                                    else:
+                                        got.append(m.bytes())
+                            a.setsockopt(socket.SOL_SOCKET, socket.SO_LINGER, struct.pack('ii', 1, 0))
+                        a.close()
+                        try:
+                            for m in port:
+                                got.append(m.bytes())
+                            if not port.closed:
+                                problem = 'iteration ended but the port does not report itself closed'
+                        except Hang:
+                            problem = 'iteration never ended although the peer had %s' % ('closed the connection' if ending == 'fin' else 'reset the connection')
+                        except Exception as e:  # noqa: BLE001
+                            problem = 'iteration raised %r' % (e,)
+                        # after a reset the kernel may discard what the port had not read yet: only an orderly close promises everything
+                        if problem is None and (got != msgs[:nmsg] if ending == 'fin' else got != msgs[:len(got)]):
+                            problem = 'the complete messages %r were sent, %r were handed out' % (msgs[:nmsg], got)
+                        try:
+                            port.close()
+                        except Exception:  # noqa: BLE001
+                            pass
+                    finally:
+                        ports.sleep = saved
+                        for s_ in (a, b):
+                            try:
+                                s_.close()
+                            except OSError:
+                                pass
+                    if problem is not None:
+                        out.failures.append(('real-readiness', 'real connection, the module\'s own readiness test: peer sent %r and ended with %s: %s' % (data, ending, problem),
+                                             {'component': 'real-readiness', 'bytes': data, 'ending': ending, 'split': split}))
+    out.evaluations += n
+    out.components['unscheduled loop-back connections with the real readiness test (implementation against the statement)'] = {'cases': n}
+
+
 def impl_sock(case, structured=True):
     import mido.ports as ports
     import mido.sockets as sockets
@@ -486,6 +561,7 @@ def run(out):
                 % (25 if quick else 1500, cuts_total, len(raws), len(servers), len(fmts), len(parses)))
     out.sample({'component': COMP_SOCK, 'case': socks[3]})
     out.sample({'component': COMP_SERVER, 'case': servers[0]})
+    real_readiness(out)
     core.kernel_crosscheck(out, [(COMP_SOCK, c) for c in rng.sample(socks, 60)] + [(COMP_PARSE, c) for c in rng.sample(parses, 40)], 'C18')
     out.assumptions += ['the kernel\'s TCP implementation on the loopback interface is the transport; the model takes its behaviour as the event list (a byte is readable, '
                         'nothing is readable, end of stream, connection reset)',
